@@ -7,6 +7,7 @@ import (
 	"verifharness/chain"
 	"verifharness/gen"
 	"verifharness/mon"
+	"verifharness/ref"
 )
 
 func init() {
@@ -24,7 +25,7 @@ func init() {
 		MinEvals:    floor(3900, 110000),
 		MinDistinct: floor(2500, 60000),
 		RequiredCells: func(string) []string {
-			cells := []string{"hook", "meta-plain", "meta-enc", "nonce-long", "cause", "iat=1", "iat=2", "iat=3", "inv-exp", "self-delegation", "subject=invoker", "equal-commands", "top-root", "policy/ipld", "policy/constructors", "no-policy"}
+			cells := []string{"scale", "scale/long-chain", "scale/deep-command", "scale/many-statements", "scale/principal-thrice", "hook", "meta-plain", "meta-enc", "nonce-long", "cause", "iat=1", "iat=2", "iat=3", "inv-exp", "self-delegation", "subject=invoker", "equal-commands", "top-root", "policy/ipld", "policy/constructors", "no-policy"}
 			for _, a := range []string{"unset", "subject", "invoker", "third", "chain"} {
 				cells = append(cells, "audience="+a)
 			}
@@ -46,6 +47,7 @@ func init() {
 }
 
 func runC05(w *mon.W) {
+	c05Scale(w)
 	r := w.Rng
 	total := w.Share(w.Pick(4000, 120000))
 	for it := 0; it < total; it++ {
@@ -180,6 +182,104 @@ func runC05(w *mon.W) {
 			d := s.Describe()
 			d["allowed"] = e == nil
 			w.Sample(d)
+		}
+	}
+}
+
+// c05Scale: conforming chains beyond the usual sizes - 9..48 links, commands of up to 40
+// segments with long / non-ASCII segments, policies of up to 130 (true) statements, a
+// principal occurring three or more times - each checked twice on the same token (plain and
+// hook path) and once more through a second invocation sharing the delegations.
+func c05Scale(w *mon.W) {
+	r := w.Rng
+	total := w.Share(w.Pick(200, 4000))
+	counts := []int{0, 1, 5, 17, 33, 65, 130}
+	segs := []string{"a", "b", "crud", "é", "è", "ほげ", "x-y"}
+	for it := 0; it < total; it++ {
+		n := 1 + r.IntN(4)
+		if it%3 == 0 {
+			n = 9 + r.IntN(40)
+		}
+		s := chain.Conformant(r, n, 3)
+		if it%4 == 1 && n >= 3 {
+			// one principal three times along the chain: A -> X -> A -> X -> A ...
+			x := gen.PickPrincipal(r, 0)
+			for k := 0; k+1 < n; k += 2 {
+				// link k: Iss -> Aud ; make the audience of link k+1 (= issuer of link k) be x
+				s.Links[k].Iss = x
+				s.Links[k+1].Aud = x
+			}
+			w.Cover("scale/principal-thrice")
+		}
+		depth := 1 + r.IntN(40)
+		sg := make([]string, depth)
+		for k := range sg {
+			sg[k] = gen.Pick(r, segs)
+			if r.IntN(10) == 0 {
+				sg[k] = strings.Repeat(sg[k], 1+r.IntN(100))
+			}
+		}
+		s.Cmd = ref.CmdFromSegments(sg)
+		for k := range s.Links {
+			if len(sg) > 0 && r.IntN(n+1) < depth {
+				sg = sg[:len(sg)-1]
+			}
+			s.Links[k].Cmd = ref.CmdFromSegments(sg)
+		}
+		s.Args = gen.ArgsMap(r)
+		var paths []gen.Path
+		gen.Paths(s.Args, nil, &paths, 3)
+		npol := 0
+		for k := range s.Links {
+			c := counts[r.IntN(len(counts))]
+			if n > 8 {
+				c = r.IntN(3)
+			}
+			for j := 0; j < c && len(paths) > 0; j++ {
+				if st, ok := gen.StmtWithTruth(r, s.Args, paths, 1, true); ok {
+					s.Links[k].Pol = append(s.Links[k].Pol, st)
+				}
+			}
+			npol += len(s.Links[k].Pol)
+			if len(s.Links[k].Pol) >= 33 {
+				w.Cover("scale/many-statements")
+			}
+			s.Links[k].PolIPLD = r.IntN(3) == 0
+		}
+		s.Wire = r.IntN(5)
+		if ok, why := s.Conforming(); !ok {
+			w.Inconclusive("C05 scale generator produced a non-conforming scenario: " + why)
+			continue
+		}
+		b, err := s.Build(r)
+		if err != nil {
+			w.Inconclusive("C05 scale scenario could not be realised: " + err.Error())
+			continue
+		}
+		e1 := allowed(b.Inv, b.Loader, false)
+		e2 := allowed(b.Inv, b.Loader, true)
+		inv2, err := s.MakeInvocation(b, nil, r)
+		var e3 error
+		if err == nil {
+			e3 = allowed(inv2, b.Loader, it%2 == 0)
+		}
+		w.Eval(3)
+		w.Cover("scale")
+		if n > 8 {
+			w.Cover("scale/long-chain")
+		}
+		if depth > 8 {
+			w.Cover("scale/deep-command")
+		}
+		w.Distinct("scale", n, s.Pattern(), s.Cmd, npol, s.Wire)
+		for i, e := range []error{e1, e2, e3} {
+			if e != nil {
+				d := s.Describe()
+				d["error"] = e.Error()
+				d["call"] = []string{"first check", "second check of the same token (hook path)", "second invocation over the same delegations"}[i]
+				w.Violate("denied/scale/"+classifyErr(e), fmt.Sprintf("a rule-conforming chain (%d links, command depth %d, %d statements) was denied on %s: %s", n, depth, npol, d["call"], errStr(e)), d)
+				break
+			}
 		}
 	}
 }
